@@ -210,6 +210,32 @@ def join(a, b):
     return Abs(kinds(a) | kinds(b), a.deps | b.deps, sign=sg)
 
 
+def _minmax_abs(fname, src, deps):
+    """abstract result of min/max over the operand values `src` (kinds, cap provenance, sign)"""
+    r = None
+    for s in src:
+        r = join(r, s)
+    ks = kinds(r) if r is not None else frozenset(["obj"])
+    cap = None
+    if len(src) == 2:
+        opts = []
+        for me, other in ((src[0], src[1]), (src[1], src[0])):
+            if isinstance(me, Abs) and me.sym:
+                opts.append((me.sym, other.deps))
+        if opts:
+            cap = (fname, opts)
+    sgs = [sign_of(x) for x in src]
+    if fname == "min":
+        sg = "pos" if all(x == "pos" for x in sgs) else ("nonneg" if all(x in ("pos", "nonneg") for x in sgs) else None)
+    else:
+        sg = "pos" if "pos" in sgs else ("nonneg" if "nonneg" in sgs else None)
+    return Abs(ks, deps, cap=cap, sign=sg)
+
+
+def _same_value(x, y):
+    return x is y or (isinstance(x, Conc) and isinstance(y, Conc) and type(x.v) is type(y.v) and x.v == y.v)
+
+
 OPS = {
     ast.Add: operator.add, ast.Sub: operator.sub, ast.Mult: operator.mul, ast.Div: operator.truediv,
     ast.FloorDiv: operator.floordiv, ast.Mod: operator.mod, ast.Pow: operator.pow,
@@ -882,24 +908,7 @@ class Interp:
                         return mk_oneof([f(c) for c in itertools.product(*[alts(s) for s in src])], deps)
                     except Exception:  # noqa: BLE001
                         pass
-            r = None
-            for s in src:
-                r = join(r, s)
-            ks = kinds(r) if r is not None else frozenset(["obj"])
-            cap = None
-            if len(src) == 2:
-                opts = []
-                for me, other in ((src[0], src[1]), (src[1], src[0])):
-                    if isinstance(me, Abs) and me.sym:
-                        opts.append((me.sym, other.deps))
-                if opts:
-                    cap = (fname, opts)
-            sgs = [sign_of(x) for x in src]
-            if fname == "min":
-                sg = "pos" if all(x == "pos" for x in sgs) else ("nonneg" if all(x in ("pos", "nonneg") for x in sgs) else None)
-            else:
-                sg = "pos" if "pos" in sgs else ("nonneg" if "nonneg" in sgs else None)
-            return Abs(ks, deps, cap=cap, sign=sg)
+            return _minmax_abs(fname, src, deps)
         if fname == "sum" and not shadow:
             a = args[0] if args else Abs({"obj"})
             src = [Conc(x) for x in a.v] if isinstance(a, Conc) else a.elems if isinstance(a, AList) else [Abs({"obj"}, a.deps)]
@@ -1042,6 +1051,10 @@ class Interp:
                     continue
                 e1, e2 = dict(env), dict(env)
                 txt = ast.unparse(s.test)
+                # selection idiom `if a < b: x = a  else: x = b` (== min(a, b)); operands evaluated before the branches
+                sel = None
+                if isinstance(s.test, ast.Compare) and len(s.test.ops) == 1 and isinstance(s.test.ops[0], (ast.Lt, ast.LtE, ast.Gt, ast.GtE)):
+                    sel = (self.ev(s.test.left, env, g), self.ev(s.test.comparators[0], env, g), isinstance(s.test.ops[0], (ast.Lt, ast.LtE)))
                 c1 = self.block(s.body, e1, [*g, ("+", txt, tv.deps)], rets)
                 c2 = self.block(s.orelse, e2, [*g, ("-", txt, tv.deps)], rets)
                 if not c1 and not c2:
@@ -1058,6 +1071,14 @@ class Interp:
                 for k in set(e1) | set(e2):
                     if k in e1 and k in e2:
                         j = join(e1[k], e2[k])
+                        if sel and e1[k] is not e2[k]:
+                            va, vb, lt = sel
+                            if _same_value(e1[k], va) and _same_value(e2[k], vb):
+                                new[k] = _minmax_abs("min" if lt else "max", [va, vb], va.deps | vb.deps)
+                                continue
+                            if _same_value(e1[k], vb) and _same_value(e2[k], va):
+                                new[k] = _minmax_abs("max" if lt else "min", [va, vb], va.deps | vb.deps)
+                                continue
                         if e1[k] is not e2[k] and tv.deps and isinstance(j, (Abs, OneOf)):
                             # control dependence of the merged value on the test
                             j = _with_ctrl(j, tv.deps)
